@@ -55,6 +55,8 @@ fn c11_range(line: &str) -> String {
     }
 }
 
+type Sp = Option<(usize, usize)>;
+
 struct Ck<'a> {
     src: &'a str,
     file: Arc<SourceFile>,
@@ -111,9 +113,10 @@ impl Ck<'_> {
         Some((s, e))
     }
 
-    fn name(&mut self, what: &str, n: &Name, required: bool) {
+    fn name(&mut self, what: &str, n: &Name, required: bool) -> Sp {
         self.names += 1;
-        if let Some((s, e)) = self.span(what, n.location(), required) {
+        let sp = self.span(what, n.location(), required);
+        if let Some((s, e)) = sp {
             if &self.src[s..e] != n.as_str() {
                 self.fail(format!("{what}:name-text:{s}..{e}:{}", n.as_str()));
             }
@@ -121,247 +124,301 @@ impl Ck<'_> {
                 self.fail(format!("{what}:name-line_column_range:{s}..{e}"));
             }
         }
+        sp
     }
 
-    fn node<T: ?Sized>(&mut self, what: &str, n: &Node<T>, required: bool) {
-        self.nodes += 1;
-        if let Some((s, e)) = self.span(what, n.location(), required) {
-            if n.line_column_range(self.sources) != self.file.get_line_column_range(s..e) {
-                self.fail(format!("{what}:node-line_column_range:{s}..{e}"));
+    /// a component (name, argument, value, ...) lies inside the node it belongs to
+    fn inside(&mut self, what: &str, outer: Sp, inner: Sp) {
+        if let (Some((os, oe)), Some((is, ie))) = (outer, inner) {
+            if !(os <= is && ie <= oe) {
+                self.fail(format!("{what}:not-inside-parent:{is}..{ie}:{os}..{oe}"));
             }
         }
     }
 
-    // ---- shared AST pieces (also used by Schema and ExecutableDocument)
-    fn ty(&mut self, t: &ast::Type, req: bool) {
-        self.name("type-ref", t.inner_named_type(), req);
+    fn node<T: ?Sized>(&mut self, what: &str, n: &Node<T>, required: bool) -> Sp {
+        self.nodes += 1;
+        let sp = self.span(what, n.location(), required);
+        if let Some((s, e)) = sp {
+            if n.line_column_range(self.sources) != self.file.get_line_column_range(s..e) {
+                self.fail(format!("{what}:node-line_column_range:{s}..{e}"));
+            }
+        }
+        sp
     }
 
-    fn value(&mut self, v: &Node<ast::Value>, req: bool) {
-        self.node("value", v, req);
+    // ---- shared AST pieces (also used by Schema and ExecutableDocument)
+    fn ty(&mut self, t: &ast::Type, req: bool, outer: Sp) {
+        let n = self.name("type-ref", t.inner_named_type(), req);
+        self.inside("type-ref", outer, n);
+    }
+
+    fn value(&mut self, v: &Node<ast::Value>, req: bool, outer: Sp) {
+        let me = self.node("value", v, req);
+        self.inside("value", outer, me);
         match &**v {
-            ast::Value::Enum(n) => self.name("enum-value", n, req),
-            ast::Value::Variable(n) => self.name("variable", n, req),
+            ast::Value::Enum(n) => {
+                let x = self.name("enum-value", n, req);
+                self.inside("enum-value", me, x);
+            }
+            ast::Value::Variable(n) => {
+                let x = self.name("variable", n, req);
+                self.inside("variable", me, x);
+            }
             ast::Value::List(l) => {
                 for x in l {
-                    self.value(x, req)
+                    self.value(x, req, me)
                 }
             }
             ast::Value::Object(l) => {
                 for (k, x) in l {
-                    self.name("object-key", k, req);
-                    self.value(x, req)
+                    let kk = self.name("object-key", k, req);
+                    self.inside("object-key", me, kk);
+                    self.value(x, req, me)
                 }
             }
             _ => {}
         }
     }
 
-    fn args(&mut self, a: &[Node<ast::Argument>], req: bool) {
+    fn args(&mut self, a: &[Node<ast::Argument>], req: bool, outer: Sp) {
         for x in a {
-            self.node("argument", x, req);
-            self.name("argument-name", &x.name, req);
-            self.value(&x.value, req);
+            let me = self.node("argument", x, req);
+            self.inside("argument", outer, me);
+            let n = self.name("argument-name", &x.name, req);
+            self.inside("argument-name", me, n);
+            self.value(&x.value, req, me);
         }
     }
 
-    fn directives(&mut self, d: &ast::DirectiveList, req: bool) {
+    fn directives(&mut self, d: &ast::DirectiveList, req: bool, outer: Sp) {
         for x in d.iter() {
-            self.node("directive", x, req);
-            self.name("directive-name", &x.name, req);
-            self.args(&x.arguments, req);
+            let me = self.node("directive", x, req);
+            self.inside("directive", outer, me);
+            let n = self.name("directive-name", &x.name, req);
+            self.inside("directive-name", me, n);
+            self.args(&x.arguments, req, me);
         }
     }
 
-    fn desc(&mut self, d: &Option<Node<str>>, req: bool) {
+    fn desc(&mut self, d: &Option<Node<str>>, req: bool, outer: Sp) {
         if let Some(d) = d {
-            self.node("description", d, req);
+            let me = self.node("description", d, req);
+            self.inside("description", outer, me);
         }
     }
 
-    fn input_value(&mut self, x: &Node<ast::InputValueDefinition>, req: bool) {
-        self.node("input-value-def", x, req);
-        self.desc(&x.description, req);
-        self.name("input-value-name", &x.name, req);
-        self.node("input-value-type", &x.ty, req);
-        self.ty(&x.ty, req);
+    fn input_value(&mut self, x: &Node<ast::InputValueDefinition>, req: bool, outer: Sp) {
+        let me = self.node("input-value-def", x, req);
+        self.inside("input-value-def", outer, me);
+        self.desc(&x.description, req, me);
+        let n = self.name("input-value-name", &x.name, req);
+        self.inside("input-value-name", me, n);
+        let t = self.node("input-value-type", &x.ty, req);
+        self.inside("input-value-type", me, t);
+        self.ty(&x.ty, req, t);
         if let Some(v) = &x.default_value {
-            self.value(v, req);
+            self.value(v, req, me);
         }
-        self.directives(&x.directives, req);
+        self.directives(&x.directives, req, me);
     }
 
-    fn field_def(&mut self, x: &Node<ast::FieldDefinition>, req: bool) {
-        self.node("field-def", x, req);
-        self.desc(&x.description, req);
-        self.name("field-def-name", &x.name, req);
+    fn field_def(&mut self, x: &Node<ast::FieldDefinition>, req: bool, outer: Sp) {
+        let me = self.node("field-def", x, req);
+        self.inside("field-def", outer, me);
+        self.desc(&x.description, req, me);
+        let n = self.name("field-def-name", &x.name, req);
+        self.inside("field-def-name", me, n);
         for a in &x.arguments {
-            self.input_value(a, req);
+            self.input_value(a, req, me);
         }
-        self.ty(&x.ty, req);
-        self.directives(&x.directives, req);
+        self.ty(&x.ty, req, me);
+        self.directives(&x.directives, req, me);
     }
 
-    fn enum_value(&mut self, x: &Node<ast::EnumValueDefinition>, req: bool) {
-        self.node("enum-value-def", x, req);
-        self.desc(&x.description, req);
-        self.name("enum-value-def-name", &x.value, req);
-        self.directives(&x.directives, req);
+    fn enum_value(&mut self, x: &Node<ast::EnumValueDefinition>, req: bool, outer: Sp) {
+        let me = self.node("enum-value-def", x, req);
+        self.inside("enum-value-def", outer, me);
+        self.desc(&x.description, req, me);
+        let n = self.name("enum-value-def-name", &x.value, req);
+        self.inside("enum-value-def-name", me, n);
+        self.directives(&x.directives, req, me);
     }
 
-    fn var_def(&mut self, x: &Node<ast::VariableDefinition>, req: bool) {
-        self.node("variable-def", x, req);
-        self.name("variable-def-name", &x.name, req);
-        self.node("variable-def-type", &x.ty, req);
-        self.ty(&x.ty, req);
+    fn var_def(&mut self, x: &Node<ast::VariableDefinition>, req: bool, outer: Sp) {
+        let me = self.node("variable-def", x, req);
+        self.inside("variable-def", outer, me);
+        let n = self.name("variable-def-name", &x.name, req);
+        self.inside("variable-def-name", me, n);
+        let t = self.node("variable-def-type", &x.ty, req);
+        self.inside("variable-def-type", me, t);
+        self.ty(&x.ty, req, t);
         if let Some(v) = &x.default_value {
-            self.value(v, req);
+            self.value(v, req, me);
         }
-        self.directives(&x.directives, req);
+        self.directives(&x.directives, req, me);
     }
 
     fn directive_def(&mut self, x: &Node<ast::DirectiveDefinition>, req: bool) {
-        self.node("directive-def", x, req);
-        self.desc(&x.description, req);
-        self.name("directive-def-name", &x.name, req);
+        let me = self.node("directive-def", x, req);
+        self.desc(&x.description, req, me);
+        let n = self.name("directive-def-name", &x.name, req);
+        self.inside("directive-def-name", me, n);
         for a in &x.arguments {
-            self.input_value(a, req);
+            self.input_value(a, req, me);
         }
     }
 
     // ---- ast::Document
-    fn ast_selections(&mut self, sels: &[ast::Selection]) {
+    fn ast_selections(&mut self, sels: &[ast::Selection], outer: Sp) {
         for s in sels {
             match s {
                 ast::Selection::Field(f) => {
-                    self.node("field", f, true);
+                    let me = self.node("field", f, true);
+                    self.inside("field", outer, me);
                     if let Some(a) = &f.alias {
-                        self.name("alias", a, true);
+                        let x = self.name("alias", a, true);
+                        self.inside("alias", me, x);
                     }
-                    self.name("field-name", &f.name, true);
-                    self.args(&f.arguments, true);
-                    self.directives(&f.directives, true);
-                    self.ast_selections(&f.selection_set);
+                    let x = self.name("field-name", &f.name, true);
+                    self.inside("field-name", me, x);
+                    self.args(&f.arguments, true, me);
+                    self.directives(&f.directives, true, me);
+                    self.ast_selections(&f.selection_set, me);
                 }
                 ast::Selection::FragmentSpread(f) => {
-                    self.node("spread", f, true);
-                    self.name("spread-name", &f.fragment_name, true);
-                    self.directives(&f.directives, true);
+                    let me = self.node("spread", f, true);
+                    self.inside("spread", outer, me);
+                    let x = self.name("spread-name", &f.fragment_name, true);
+                    self.inside("spread-name", me, x);
+                    self.directives(&f.directives, true, me);
                 }
                 ast::Selection::InlineFragment(f) => {
-                    self.node("inline", f, true);
+                    let me = self.node("inline", f, true);
+                    self.inside("inline", outer, me);
                     if let Some(t) = &f.type_condition {
-                        self.name("type-condition", t, true);
+                        let x = self.name("type-condition", t, true);
+                        self.inside("type-condition", me, x);
                     }
-                    self.directives(&f.directives, true);
-                    self.ast_selections(&f.selection_set);
+                    self.directives(&f.directives, true, me);
+                    self.ast_selections(&f.selection_set, me);
                 }
             }
         }
     }
 
-    fn root_ops(&mut self, r: &[Node<(ast::OperationType, ast::NamedType)>]) {
+    fn root_ops(&mut self, r: &[Node<(ast::OperationType, ast::NamedType)>], outer: Sp) {
         for x in r {
-            self.node("root-operation", x, true);
-            self.name("root-operation-type", &x.1, true);
+            let me = self.node("root-operation", x, true);
+            self.inside("root-operation", outer, me);
+            let n = self.name("root-operation-type", &x.1, true);
+            self.inside("root-operation-type", me, n);
         }
     }
 
     fn ast_doc(&mut self, doc: &ast::Document) {
         use ast::Definition as D;
         for def in &doc.definitions {
-            if let Some(n) = def.name() {
-                self.name("definition-name", n, true);
-            }
-            self.span("definition", def.location(), true);
+            let dsp = self.span("definition", def.location(), true);
             self.nodes += 1;
-            self.directives(def.directives(), true);
+            if let Some(n) = def.name() {
+                let x = self.name("definition-name", n, true);
+                self.inside("definition-name", dsp, x);
+            }
+            self.directives(def.directives(), true, dsp);
             match def {
                 D::OperationDefinition(d) => {
                     self.node("operation", d, true);
                     for v in &d.variables {
-                        self.var_def(v, true);
+                        self.var_def(v, true, dsp);
                     }
-                    self.ast_selections(&d.selection_set);
+                    self.ast_selections(&d.selection_set, dsp);
                 }
                 D::FragmentDefinition(d) => {
                     self.node("fragment", d, true);
-                    self.name("type-condition", &d.type_condition, true);
-                    self.ast_selections(&d.selection_set);
+                    let x = self.name("type-condition", &d.type_condition, true);
+                    self.inside("type-condition", dsp, x);
+                    self.ast_selections(&d.selection_set, dsp);
                 }
                 D::DirectiveDefinition(d) => self.directive_def(d, true),
                 D::SchemaDefinition(d) => {
-                    self.desc(&d.description, true);
-                    self.root_ops(&d.root_operations);
+                    self.desc(&d.description, true, dsp);
+                    self.root_ops(&d.root_operations, dsp);
                 }
-                D::SchemaExtension(d) => self.root_ops(&d.root_operations),
-                D::ScalarTypeDefinition(d) => self.desc(&d.description, true),
+                D::SchemaExtension(d) => self.root_ops(&d.root_operations, dsp),
+                D::ScalarTypeDefinition(d) => self.desc(&d.description, true, dsp),
                 D::ScalarTypeExtension(_) => {}
                 D::ObjectTypeDefinition(d) => {
-                    self.desc(&d.description, true);
+                    self.desc(&d.description, true, dsp);
                     for n in &d.implements_interfaces {
-                        self.name("implements", n, true);
+                        let x = self.name("implements", n, true);
+                        self.inside("implements", dsp, x);
                     }
                     for f in &d.fields {
-                        self.field_def(f, true);
+                        self.field_def(f, true, dsp);
                     }
                 }
                 D::ObjectTypeExtension(d) => {
                     for n in &d.implements_interfaces {
-                        self.name("implements", n, true);
+                        let x = self.name("implements", n, true);
+                        self.inside("implements", dsp, x);
                     }
                     for f in &d.fields {
-                        self.field_def(f, true);
+                        self.field_def(f, true, dsp);
                     }
                 }
                 D::InterfaceTypeDefinition(d) => {
-                    self.desc(&d.description, true);
+                    self.desc(&d.description, true, dsp);
                     for n in &d.implements_interfaces {
-                        self.name("implements", n, true);
+                        let x = self.name("implements", n, true);
+                        self.inside("implements", dsp, x);
                     }
                     for f in &d.fields {
-                        self.field_def(f, true);
+                        self.field_def(f, true, dsp);
                     }
                 }
                 D::InterfaceTypeExtension(d) => {
                     for n in &d.implements_interfaces {
-                        self.name("implements", n, true);
+                        let x = self.name("implements", n, true);
+                        self.inside("implements", dsp, x);
                     }
                     for f in &d.fields {
-                        self.field_def(f, true);
+                        self.field_def(f, true, dsp);
                     }
                 }
                 D::UnionTypeDefinition(d) => {
-                    self.desc(&d.description, true);
+                    self.desc(&d.description, true, dsp);
                     for n in &d.members {
-                        self.name("union-member", n, true);
+                        let x = self.name("union-member", n, true);
+                        self.inside("union-member", dsp, x);
                     }
                 }
                 D::UnionTypeExtension(d) => {
                     for n in &d.members {
-                        self.name("union-member", n, true);
+                        let x = self.name("union-member", n, true);
+                        self.inside("union-member", dsp, x);
                     }
                 }
                 D::EnumTypeDefinition(d) => {
-                    self.desc(&d.description, true);
+                    self.desc(&d.description, true, dsp);
                     for v in &d.values {
-                        self.enum_value(v, true);
+                        self.enum_value(v, true, dsp);
                     }
                 }
                 D::EnumTypeExtension(d) => {
                     for v in &d.values {
-                        self.enum_value(v, true);
+                        self.enum_value(v, true, dsp);
                     }
                 }
                 D::InputObjectTypeDefinition(d) => {
-                    self.desc(&d.description, true);
+                    self.desc(&d.description, true, dsp);
                     for f in &d.fields {
-                        self.input_value(f, true);
+                        self.input_value(f, true, dsp);
                     }
                 }
                 D::InputObjectTypeExtension(d) => {
                     for f in &d.fields {
-                        self.input_value(f, true);
+                        self.input_value(f, true, dsp);
                     }
                 }
             }
@@ -373,14 +430,14 @@ impl Ck<'_> {
         for x in d.iter() {
             self.node("schema-directive", &x.node, false);
             self.name("schema-directive-name", &x.name, false);
-            self.args(&x.arguments, false);
+            self.args(&x.arguments, false, None);
         }
     }
 
     fn schema(&mut self, s: &sch::Schema) {
         let sd = &s.schema_definition;
         self.node("schema-def", sd, false);
-        self.desc(&sd.description, false);
+        self.desc(&sd.description, false, None);
         self.sch_directives(&sd.directives);
         for r in [&sd.query, &sd.mutation, &sd.subscription].into_iter().flatten() {
             self.name("schema-root", &r.name, false);
@@ -396,45 +453,45 @@ impl Ck<'_> {
             self.nodes += 1;
             self.sch_directives(t.directives());
             match t {
-                sch::ExtendedType::Scalar(t) => self.desc(&t.description, false),
+                sch::ExtendedType::Scalar(t) => self.desc(&t.description, false, None),
                 sch::ExtendedType::Object(t) => {
-                    self.desc(&t.description, false);
+                    self.desc(&t.description, false, None);
                     for i in &t.implements_interfaces {
                         self.name("schema-implements", &i.name, false);
                     }
                     for (k, f) in &t.fields {
                         self.name("schema-field-key", k, false);
-                        self.field_def(&f.node, false);
+                        self.field_def(&f.node, false, None);
                     }
                 }
                 sch::ExtendedType::Interface(t) => {
-                    self.desc(&t.description, false);
+                    self.desc(&t.description, false, None);
                     for i in &t.implements_interfaces {
                         self.name("schema-implements", &i.name, false);
                     }
                     for (k, f) in &t.fields {
                         self.name("schema-field-key", k, false);
-                        self.field_def(&f.node, false);
+                        self.field_def(&f.node, false, None);
                     }
                 }
                 sch::ExtendedType::Union(t) => {
-                    self.desc(&t.description, false);
+                    self.desc(&t.description, false, None);
                     for m in &t.members {
                         self.name("schema-union-member", &m.name, false);
                     }
                 }
                 sch::ExtendedType::Enum(t) => {
-                    self.desc(&t.description, false);
+                    self.desc(&t.description, false, None);
                     for (k, v) in &t.values {
                         self.name("schema-enum-key", k, false);
-                        self.enum_value(&v.node, false);
+                        self.enum_value(&v.node, false, None);
                     }
                 }
                 sch::ExtendedType::InputObject(t) => {
-                    self.desc(&t.description, false);
+                    self.desc(&t.description, false, None);
                     for (k, f) in &t.fields {
                         self.name("schema-input-key", k, false);
-                        self.input_value(&f.node, false);
+                        self.input_value(&f.node, false, None);
                     }
                 }
             }
@@ -452,21 +509,21 @@ impl Ck<'_> {
                         self.name("exe-alias", a, false);
                     }
                     self.name("exe-field-name", &f.name, false);
-                    self.args(&f.arguments, false);
-                    self.directives(&f.directives, false);
+                    self.args(&f.arguments, false, None);
+                    self.directives(&f.directives, false, None);
                     self.exe_set(&f.selection_set);
                 }
                 exe::Selection::FragmentSpread(f) => {
                     self.node("exe-spread", f, false);
                     self.name("exe-spread-name", &f.fragment_name, false);
-                    self.directives(&f.directives, false);
+                    self.directives(&f.directives, false, None);
                 }
                 exe::Selection::InlineFragment(f) => {
                     self.node("exe-inline", f, false);
                     if let Some(t) = &f.type_condition {
                         self.name("exe-type-condition", t, false);
                     }
-                    self.directives(&f.directives, false);
+                    self.directives(&f.directives, false, None);
                     self.exe_set(&f.selection_set);
                 }
             }
@@ -480,16 +537,16 @@ impl Ck<'_> {
                 self.name("exe-operation-name", n, false);
             }
             for v in &op.variables {
-                self.var_def(v, false);
+                self.var_def(v, false, None);
             }
-            self.directives(&op.directives, false);
+            self.directives(&op.directives, false, None);
             self.exe_set(&op.selection_set);
         }
         for (k, f) in &d.fragments {
             self.name("exe-fragment-key", k, false);
             self.node("exe-fragment", f, false);
             self.name("exe-fragment-name", &f.name, false);
-            self.directives(&f.directives, false);
+            self.directives(&f.directives, false, None);
             self.exe_set(&f.selection_set);
         }
     }
